@@ -331,7 +331,9 @@ pub fn run(ctx: &Ctx) -> i32 {
         let ne = case.g.ne();
         let large = i >= n_regular;
         let sectors = if large { sector_subset(ne, false) } else { all_sectors(ne) };
-        let kk = if large { 1 } else { k };
+        // two deviations only for graphs with up to three edges (the thorough tier's k = 2 on the whole family does not fit
+        // the wall-clock cap)
+        let kk = if large || ne > 3 { 1 } else { k };
         let per_sector = sector_points(&case, &sectors[0], kk, &roles).len() * 2;
         let budget = (tier.pick(1500, 2000) / (case.nl * case.nl).max(1)).max(per_sector);
         let fit = (budget / per_sector.max(1)).max(1);
@@ -389,6 +391,10 @@ pub fn run(ctx: &Ctx) -> i32 {
             for (pi, (x, _)) in pts.into_iter().enumerate() {
                 if pi != 0 && pi % pstep != 0 {
                     continue;
+                }
+                if pi % 16 == 15 && time_up() {
+                    acc.inc("items_skipped_by_time_cap");
+                    return;
                 }
                 c01_point(&case, &base, &x, acc);
                 if let Some(t) = &trop {
